@@ -38,6 +38,11 @@ func vC02SharedSig(owner string, covered uint16, zone string, ttl uint32, exp ti
 	}
 }
 
+// the resolver-owned DNSSEC crypto gate, never busy (optional NSEC3 hashing of the proof index needs one)
+type vC02FreeLimiter struct{}
+
+func (vC02FreeLimiter) TryAcquire() (func(), bool) { return func() {}, true }
+
 // vC02SharedObs reads the shared state behind the Store (in-package access, read-only): the zone's SOA
 // expiry, its NSEC entries in FIFO (admission) order with their expiries, the zone's subtree cuts in FIFO
 // order and how many of them are live.  Expiries of the proof index are exact (injected clock, whole
@@ -63,6 +68,7 @@ func vC02SharedObs(c *Cache, zone string, base time.Time) (coq, desc string, cut
 		sum += exp
 		recs = append(recs, fmt.Sprintf("%s@%d", e.id.owner, exp))
 	}
+	tomb := len(dp.nsec3Conflicts) > 0
 	dp.mu.RUnlock()
 	cc := c.store.nxDomainCuts
 	cc.mu.RLock()
@@ -87,8 +93,8 @@ func vC02SharedObs(c *Cache, zone string, base time.Time) (coq, desc string, cut
 		}
 	}
 	cc.mu.RUnlock()
-	coq = fmt.Sprintf("(mk_shobs %s %d (%d) %d %d)", soa, n, sum, ncut, nlive)
-	desc = fmt.Sprintf("index[%s] cuts[%s]", strings.Join(recs, " "), strings.Join(cuts, " "))
+	coq = fmt.Sprintf("(mk_shobs %s %d (%d) %d %d %v)", soa, n, sum, ncut, nlive, tomb)
+	desc = fmt.Sprintf("index[%s] quarantine=%v cuts[%s]", strings.Join(recs, " "), tomb, strings.Join(cuts, " "))
 	return
 }
 
@@ -185,8 +191,32 @@ func TestVerifC02Shared(t *testing.T) {
 func vC02SharedCase(t *testing.T, tr *vC02Trace, g *vC02Gen, z *vC02Zone, script *vC02ShScript) {
 	r := g.r
 	zoneStr := vC02Pres(z.apex)
+	// denial family of the zone: NSEC, or (40 % of the generated cases) NSEC3 with one parameter tuple
+	family3 := script == nil && r.Intn(5) < 2
+	var chain3 []vC02Rec3
+	var params vC02Params
+	if family3 {
+		z3 := &vC02Zone{apex: z.apex}
+		for _, nd := range z.nodes {
+			var ts []uint16
+			for _, t := range nd.types {
+				if t != dns.TypeNSEC {
+					ts = append(ts, t)
+				}
+			}
+			z3.nodes = append(z3.nodes, vC02Node{nd.name, ts})
+		}
+		z3.index()
+		z = z3
+		params = vC02Params{iter: []uint16{0, 0, 1, 5}[r.Intn(4)], salt: []string{"", "ab", "beef"}[r.Intn(3)]}
+		chain3, _ = g.nsec3Chain(z, params, r.Intn(4) == 0, false)
+	}
 	chain := z.nsecChain()
 	cands := g.candidates(z)
+	var allRR3 []dns.RR // every NSEC3 record sent downstream, in order (rendered with one rank table at the end)
+	var allZones3 []vC02Name
+	tabNames := map[string]vC02Name{}
+	dirty := false // records of a changed zone were admitted: truth is no longer judged
 	// sizing as production derives it from CacheSize: per-zone entry limits of the proof index / the cut
 	// cache are 8/8 at 4096 and 16/32 at 32768; the model gets them as read from the real Store
 	cacheSize := []int{4096, 4096, 4096, 4096, 4096, 4096, 4096, 32768, 32768, 32768}[r.Intn(10)]
@@ -199,6 +229,7 @@ func vC02SharedCase(t *testing.T, tr *vC02Trace, g *vC02Gen, z *vC02Zone, script
 	}
 	cache := New(&config.Config{CacheSize: cacheSize, Expire: 3600})
 	defer cache.Stop()
+	cache.SetDNSSECCryptoLimiter(vC02FreeLimiter{})
 	limIndex, limCuts := cache.store.denialProofs.maxEntriesPerZone, cache.store.nxDomainCuts.maxEntriesPerZone
 	base := time.Now()
 	var offset int64 // model clock, seconds
@@ -301,6 +332,14 @@ func vC02SharedCase(t *testing.T, tr *vC02Trace, g *vC02Gen, z *vC02Zone, script
 			q = append(vC02UpperSome(r, q[:kk]), q[kk:]...)
 		}
 		qs := vC02Pres(q)
+		if family3 { // every name a lookup may hash: the suffixes of q down to the apex and the wildcard below each
+			for k := len(z.apex); k <= len(q); k++ {
+				sfx := vC02Suffix(q, k)
+				tabNames[vC02Key(sfx)] = sfx
+				w := vC02Child(vC02Star, sfx)
+				tabNames[vC02Key(w)] = w
+			}
+		}
 		cd, ecs := false, false
 		if sop != nil {
 			cd, ecs = sop.CD, sop.ECS
@@ -322,6 +361,7 @@ func vC02SharedCase(t *testing.T, tr *vC02Trace, g *vC02Gen, z *vC02Zone, script
 		dsCoq := "DsPositive"
 		dsDesc := "positive"
 		thisOp := vC02ShOp{Q: vC02ShLabels(q), Qtype: qtype, CD: cd, ECS: ecs}
+		opHonest := true
 		var neg *dns.Msg
 		marked, aggressive, resCD := false, false, false
 		var ttl int64
@@ -355,11 +395,7 @@ func vC02SharedCase(t *testing.T, tr *vC02Trace, g *vC02Gen, z *vC02Zone, script
 					marked, aggressive, resCD = true, true, false
 				}
 			}
-			var recs []vC02Rec
-			for _, i := range recIdx {
-				recs = append(recs, chain[i%len(chain)])
-			}
-			thisOp.Neg, thisOp.Recs, thisOp.TTL, thisOp.Marked, thisOp.Aggr, thisOp.ResCD = true, recIdx, ttl, marked, aggressive, resCD
+			honest := true
 			neg = new(dns.Msg)
 			neg.SetRcode(req, rcode)
 			neg.RecursionAvailable = true
@@ -368,15 +404,62 @@ func vC02SharedCase(t *testing.T, tr *vC02Trace, g *vC02Gen, z *vC02Zone, script
 			soa := &dns.SOA{Hdr: dns.RR_Header{Name: zoneStr, Rrtype: dns.TypeSOA, Class: 1, Ttl: uint32(ttl)}, Ns: "ns." + zoneStr, Mbox: "h." + zoneStr,
 				Serial: 1, Refresh: 1, Retry: 1, Expire: 1, Minttl: uint32(ttl)}
 			neg.Ns = append(neg.Ns, soa, vC02SharedSig(zoneStr, dns.TypeSOA, zoneStr, uint32(ttl), sigExp))
-			var rcoq []string
-			for _, rc := range recs {
-				rr := rc.rr()
-				rr.Hdr.Ttl = uint32(ttl)
-				neg.Ns = append(neg.Ns, rr, vC02SharedSig(rr.Hdr.Name, dns.TypeNSEC, zoneStr, uint32(ttl), sigExp))
-				rcoq = append(rcoq, rc.coq())
+			if family3 {
+				// NSEC3 RRsets of the zone's one ring; NXDOMAIN proofs stay thin (closest encloser, next closer,
+				// wildcard) so that a cut stays below the per-entry byte budget
+				maxn := 8
+				if rcode == dns.RcodeNameError {
+					maxn = 3
+				}
+				var idx []int
+				for i := range chain3 {
+					if r.Intn(3) > 0 {
+						idx = append(idx, i)
+					}
+				}
+				if len(idx) == 0 {
+					idx = append(idx, r.Intn(len(chain3)))
+				}
+				r.Shuffle(len(idx), func(i, j int) { idx[i], idx[j] = idx[j], idx[i] })
+				if len(idx) > maxn {
+					idx = idx[:maxn]
+				}
+				tamper := -1
+				if r.Intn(7) == 0 { // the zone changed under the cache: one owner hash now carries other RDATA
+					tamper = r.Intn(len(idx))
+					honest = false
+				}
+				first := len(allRR3)
+				for k, i := range idx {
+					rc := chain3[i]
+					if k == tamper {
+						rc.types = append(append([]uint16(nil), rc.types...), 99) // SPF joins the bitmap
+						if r.Intn(2) == 0 {
+							rc.flags ^= 1
+						}
+					}
+					rr := rc.rr()
+					rr.Hdr.Ttl = uint32(ttl)
+					neg.Ns = append(neg.Ns, rr, vC02SharedSig(rr.Hdr.Name, dns.TypeNSEC3, zoneStr, uint32(ttl), sigExp))
+					allRR3 = append(allRR3, rr)
+					allZones3 = append(allZones3, rc.zone)
+				}
+				dsCoq = fmt.Sprintf("(DsNegative3 %d [@@R%d:%d@@] (%d) %v %v %v)", rcode, first, len(allRR3), ttl, marked, aggressive, cd || resCD)
+				dsDesc = fmt.Sprintf("rcode=%d with %d NSEC3 (changed=%v) ttl=%d provenance=%v aggressive=%v resCD=%v", rcode, len(idx), !honest, ttl, marked, aggressive, cd || resCD)
+			} else {
+				var rcoq []string
+				for _, i := range recIdx {
+					rc := chain[i%len(chain)]
+					rr := rc.rr()
+					rr.Hdr.Ttl = uint32(ttl)
+					neg.Ns = append(neg.Ns, rr, vC02SharedSig(rr.Hdr.Name, dns.TypeNSEC, zoneStr, uint32(ttl), sigExp))
+					rcoq = append(rcoq, rc.coq())
+				}
+				dsCoq = fmt.Sprintf("(DsNegative %d [%s] (%d) %v %v %v)", rcode, strings.Join(rcoq, ";"), ttl, marked, aggressive, cd || resCD)
+				dsDesc = fmt.Sprintf("rcode=%d with %d NSEC ttl=%d provenance=%v aggressive=%v resCD=%v", rcode, len(recIdx), ttl, marked, aggressive, cd || resCD)
 			}
-			dsCoq = fmt.Sprintf("(DsNegative %d [%s] (%d) %v %v %v)", rcode, strings.Join(rcoq, ";"), ttl, marked, aggressive, cd || resCD)
-			dsDesc = fmt.Sprintf("rcode=%d with %d NSEC ttl=%d provenance=%v aggressive=%v resCD=%v", rcode, len(recs), ttl, marked, aggressive, cd || resCD)
+			thisOp.Neg, thisOp.Recs, thisOp.TTL, thisOp.Marked, thisOp.Aggr, thisOp.ResCD = true, recIdx, ttl, marked, aggressive, resCD
+			opHonest = honest
 		}
 		calls := 0
 		downstream := middleware.HandlerFunc(func(ctx context.Context, ch *middleware.Chain) {
@@ -384,7 +467,7 @@ func vC02SharedCase(t *testing.T, tr *vC02Trace, g *vC02Gen, z *vC02Zone, script
 			if neg != nil {
 				if marked {
 					middleware.MarkValidatedNegativeProofResponse(ctx, neg, middleware.ValidatedNegativeProof{
-						Subject: qs, Zone: zoneStr, Kind: middleware.ValidatedNegativeProofNSEC, Aggressive: aggressive})
+						Subject: qs, Zone: zoneStr, Kind: map[bool]middleware.ValidatedNegativeProofKind{false: middleware.ValidatedNegativeProofNSEC, true: middleware.ValidatedNegativeProofNSEC3}[family3], Aggressive: aggressive})
 				}
 				_ = ch.Writer.WriteMsg(neg)
 			} else {
@@ -412,13 +495,16 @@ func vC02SharedCase(t *testing.T, tr *vC02Trace, g *vC02Gen, z *vC02Zone, script
 				switch {
 				case cd || ecs:
 					goFail = fmt.Sprintf("a CD=%v / ECS=%v request for %s was answered from shared denial state", cd, ecs, qs)
-				case !truth:
+				case !truth && !dirty:
 					goFail = fmt.Sprintf("Cache.ServeDNS synthesised rcode=%d for %s %s which is not true of the zone (exists=%q nodata=%v)", got.Rcode, qs, dns.TypeToString[qtype], how, ndTrue)
 				case admitCount == 0:
 					goFail = fmt.Sprintf("rcode=%d for %s synthesised although nothing passed the admission guard", got.Rcode, qs)
 				}
 			}
 		} else if neg != nil && marked && aggressive && !cd && !ecs && !resCD {
+			if !opHonest {
+				dirty = true
+			}
 			admitCount++
 			deadlines = append(deadlines, offset+min(ttl, maxTTL))
 		}
@@ -429,13 +515,40 @@ func vC02SharedCase(t *testing.T, tr *vC02Trace, g *vC02Gen, z *vC02Zone, script
 			oversize = true
 		}
 		rec.Ops = append(rec.Ops, thisOp)
-		ops = append(ops, fmt.Sprintf("ShExchange %s %d %v %v %s %s %s", vC02Coq(q), qtype, cd, ecs, dsCoq, synth, obsCoq))
+		ops = append(ops, fmt.Sprintf("ShExchange %s %d %v %v %s %v %s %s", vC02Coq(q), qtype, cd, ecs, dsCoq, opHonest, synth, obsCoq))
 		desc = append(desc, fmt.Sprintf("t=%d %s %s cd=%v ecs=%v downstream:[%s] -> synthesized=%s [truth: exists=%q nodata=%v] state after: %s", offset, qs, dns.TypeToString[qtype], cd, ecs, dsDesc, synth, how, ndTrue, obsDesc))
 	}
+	opsText := strings.Join(ops, ";")
+	tabCoq := ""
+	if family3 {
+		rcoq, tcoq := vC02Nsec3Coq(allRR3, allZones3, tabNames, params)
+		tabCoq = strings.Join(tcoq, ";")
+		for { // fill the record placeholders
+			i := strings.Index(opsText, "@@R")
+			if i < 0 {
+				break
+			}
+			j := strings.Index(opsText[i:], "@@]") + i
+			var a, b int
+			fmt.Sscanf(opsText[i:j+2], "@@R%d:%d@@", &a, &b)
+			opsText = opsText[:i] + strings.Join(rcoq[a:b], ";") + opsText[j+2:]
+		}
+	}
+	kindTag := "shared-history"
+	if family3 {
+		kindTag = "shared-history-nsec3"
+	}
+	if script != nil {
+		kindTag = "shared-corpus"
+	}
+	var recAny any = rec
+	if family3 {
+		recAny = nil // NSEC3 histories depend on the generator's Opt-Out choices: not replayable from a script
+	}
 	tr.emit(map[string]any{
-		"k":            map[bool]string{false: "shared-history", true: "shared-corpus"}[script != nil],
-		"script":       rec, // the history in corpus form: save it as corpus/C02/shared-<name>.json to pin it
-		"coq":          fmt.Sprintf("(CaseShared %s (%d) %d %d [%s])%%N", z.coq(), maxTTL, limIndex, limCuts, strings.Join(ops, ";")),
+		"k":            kindTag,
+		"script":       recAny, // the history in corpus form: save it as corpus/C02/shared-<name>.json to pin it
+		"coq":          fmt.Sprintf("(CaseShared %s (%d) %d %d [%s] [%s])%%N", z.coq(), maxTTL, limIndex, limCuts, tabCoq, opsText),
 		"inconclusive": oversize,
 		"go_fail":      goFail,
 		"nontrivial":   synthCount > 0 && admitCount > 0,
